@@ -1,0 +1,360 @@
+//go:build verif
+
+package goja
+
+// White-box accessors for verification property C01 (no script can crash the host).
+// Add-only; compiled only with -tags verif.
+
+import (
+	"fmt"
+	"reflect"
+	"sort"
+	"strconv"
+	"strings"
+)
+
+// VerifC01Unit is one separately verified code unit: the top-level program or one nested function /
+// class constructor / field-initialiser body.
+type VerifC01Unit struct {
+	Kind  string   // "program" | "func" | "ctor" | "fields" | "static"
+	Path  string   // e.g. "0", "0/12", position of the defining instruction in the parent unit(s)
+	Code  []string // one canonical line per instruction (see verifC01Instr)
+	Owner *Program `json:"-"`
+}
+
+func verifC01TypeName(ins instruction) string {
+	t := reflect.TypeOf(ins)
+	if t == nil {
+		return "nil"
+	}
+	for t.Kind() == reflect.Ptr {
+		t = t.Elem()
+	}
+	return t.Name()
+}
+
+func verifC01ValTag(v Value) string {
+	switch v := v.(type) {
+	case nil:
+		return "nil"
+	case valueInt:
+		return "int"
+	case valueFloat:
+		return "float"
+	case valueBool:
+		return "bool"
+	case valueNull:
+		return "null"
+	case valueUndefined:
+		return "undef"
+	case *valueBigInt:
+		return "bigint"
+	case String:
+		return "str"
+	case *Object:
+		return "obj"
+	default:
+		_ = v
+		return "other"
+	}
+}
+
+func verifC01Esc(s string) string {
+	var b strings.Builder
+	for _, r := range s {
+		if r > 0x20 && r < 0x7f && r != '|' && r != '=' && r != ';' && r != '%' && r != ',' {
+			b.WriteRune(r)
+		} else {
+			b.WriteString("%" + strconv.FormatInt(int64(r), 16) + ".")
+		}
+	}
+	return b.String()
+}
+
+func verifC01Fields(b *strings.Builder, v reflect.Value, prefix string) {
+	t := v.Type()
+	for i := 0; i < t.NumField(); i++ {
+		f := t.Field(i)
+		fv := v.Field(i)
+		switch fv.Kind() {
+		case reflect.Int, reflect.Int8, reflect.Int16, reflect.Int32, reflect.Int64:
+			fmt.Fprintf(b, "|%s%s=%d", prefix, f.Name, fv.Int())
+		case reflect.Uint, reflect.Uint8, reflect.Uint16, reflect.Uint32, reflect.Uint64:
+			fmt.Fprintf(b, "|%s%s=%d", prefix, f.Name, fv.Uint())
+		case reflect.Bool:
+			n := 0
+			if fv.Bool() {
+				n = 1
+			}
+			fmt.Fprintf(b, "|%s%s=%d", prefix, f.Name, n)
+		case reflect.String:
+			fmt.Fprintf(b, "|%s%s=$%s", prefix, f.Name, verifC01Esc(fv.String()))
+		case reflect.Slice, reflect.Map:
+			fmt.Fprintf(b, "|%s%s#=%d", prefix, f.Name, fv.Len())
+		case reflect.Struct:
+			if f.Anonymous {
+				verifC01Fields(b, fv, prefix)
+			}
+		}
+	}
+}
+
+// verifC01Instr renders an instruction as  TypeName|n=<int>|s=$<string>|<field>=<int>...
+// Integer-kinded named types give n=, string-kinded give s=, structs give one item per numeric/bool/string field
+// (embedded structs flattened), slices and maps give <field>#=<len>.  loadVal gives v=<value tag>.
+func verifC01Instr(ins instruction) string {
+	var b strings.Builder
+	b.WriteString(verifC01TypeName(ins))
+	if ins == nil {
+		return b.String()
+	}
+	if lv, ok := ins.(loadVal); ok {
+		b.WriteString("|v=$" + verifC01ValTag(lv.v))
+		if s, ok := lv.v.(String); ok {
+			str := s.String()
+			if len(str) <= 8 {
+				b.WriteString("|s=$" + verifC01Esc(str))
+			}
+		}
+		return b.String()
+	}
+	v := reflect.ValueOf(ins)
+	for v.Kind() == reflect.Ptr {
+		if v.IsNil() {
+			return b.String()
+		}
+		v = v.Elem()
+	}
+	switch v.Kind() {
+	case reflect.Int, reflect.Int8, reflect.Int16, reflect.Int32, reflect.Int64:
+		fmt.Fprintf(&b, "|n=%d", v.Int())
+	case reflect.Uint, reflect.Uint8, reflect.Uint16, reflect.Uint32, reflect.Uint64:
+		fmt.Fprintf(&b, "|n=%d", v.Uint())
+	case reflect.String:
+		b.WriteString("|s=$" + verifC01Esc(v.String()))
+	case reflect.Struct:
+		verifC01Fields(&b, v, "")
+	}
+	return b.String()
+}
+
+type verifC01Sub struct {
+	kind string
+	prg  *Program
+}
+
+func verifC01Subprograms(ins instruction) (subs []verifC01Sub) {
+	if t, ok := ins.(*verifC01Traced); ok {
+		ins = t.inner
+	}
+	switch f := ins.(type) {
+	case newFuncInstruction:
+		if p := f.getPrg(); p != nil {
+			subs = append(subs, verifC01Sub{"func", p})
+		}
+	case *newDerivedClass:
+		if f.ctor != nil {
+			subs = append(subs, verifC01Sub{"ctor", f.ctor})
+		}
+		if f.initFields != nil {
+			subs = append(subs, verifC01Sub{"fields", f.initFields})
+		}
+	case *newClass:
+		if f.ctor != nil {
+			subs = append(subs, verifC01Sub{"ctor", f.ctor})
+		}
+		if f.initFields != nil {
+			subs = append(subs, verifC01Sub{"fields", f.initFields})
+		}
+	case *newStaticFieldInit:
+		if f.initFields != nil {
+			subs = append(subs, verifC01Sub{"static", f.initFields})
+		}
+	}
+	return
+}
+
+// VerifC01DumpProgram lists every code unit of p (the program itself and, recursively, every nested
+// function/constructor/field-initialiser program) in a deterministic order.
+func VerifC01DumpProgram(p *Program) []VerifC01Unit {
+	var out []VerifC01Unit
+	seen := map[*Program]bool{}
+	var walk func(kind, path string, p *Program)
+	walk = func(kind, path string, p *Program) {
+		if p == nil || seen[p] {
+			return
+		}
+		seen[p] = true
+		u := VerifC01Unit{Kind: kind, Path: path, Owner: p}
+		for _, ins := range p.code {
+			if t, ok := ins.(*verifC01Traced); ok {
+				ins = t.inner
+			}
+			u.Code = append(u.Code, verifC01Instr(ins))
+		}
+		out = append(out, u)
+		for pc, ins := range p.code {
+			for i, s := range verifC01Subprograms(ins) {
+				walk(s.kind, fmt.Sprintf("%s/%d.%d", path, pc, i), s.prg)
+			}
+		}
+	}
+	walk("program", "0", p)
+	return out
+}
+
+// VerifC01SP returns the operand stack pointer, frame base, and the lengths of the auxiliary stacks.
+func VerifC01SP(r *Runtime) (sp, sb, callStack, tryStack, iterStack, refStack int) {
+	vm := r.vm
+	return vm.sp, vm.sb, len(vm.callStack), len(vm.tryStack), len(vm.iterStack), len(vm.refStack)
+}
+
+// ---- per-instruction tracing -------------------------------------------------------------------
+
+// VerifC01Obs aggregates what executed instructions really did to pc and sp.
+// Key: instruction rendering (type + operands) + " " + pcDelta + " " + spDelta.
+type VerifC01Obs struct {
+	Counts map[string]int
+	// Skipped: executions whose effect cannot be attributed to the instruction alone
+	// (frame switch, handler transfer, panic).
+	FrameSwitch map[string]int
+	Handler     map[string]int
+}
+
+type verifC01Traced struct {
+	inner instruction
+	repr  string
+	obs   *VerifC01Obs
+}
+
+func (t *verifC01Traced) exec(vm *vm) {
+	sp, pc, prg, depth := vm.sp, vm.pc, vm.prg, len(vm.callStack)
+	// snapshot handler entries of the try frames that belong to the current call frame
+	type h struct{ pc, sp int }
+	var hs [8]h
+	nh := 0
+	for i := len(vm.tryStack) - 1; i >= 0 && nh < len(hs)-1; i-- {
+		tf := &vm.tryStack[i]
+		if int(tf.callStackLen) != depth {
+			break
+		}
+		if tf.catchPos >= 0 {
+			hs[nh] = h{int(tf.catchPos), int(tf.sp) + 1}
+			nh++
+		}
+		if tf.finallyPos >= 0 {
+			hs[nh] = h{int(tf.finallyPos), int(tf.sp)}
+			nh++
+		}
+	}
+	t.inner.exec(vm) // a panic skips the recording below
+	if vm.prg != prg || len(vm.callStack) != depth {
+		t.obs.FrameSwitch[t.repr]++
+		return
+	}
+	dpc, dsp := vm.pc-pc, vm.sp-sp
+	for i := 0; i < nh; i++ {
+		if hs[i].pc == vm.pc && hs[i].sp == vm.sp && dpc != 1 {
+			t.obs.Handler[t.repr]++
+			return
+		}
+	}
+	t.obs.Counts[t.repr+" "+strconv.Itoa(dpc)+" "+strconv.Itoa(dsp)]++
+}
+
+// VerifC01Instrument replaces, IN PLACE, every instruction of p and of all nested programs by a
+// tracing wrapper. p must not be shared with anything else afterwards. Returns the observation sink.
+func VerifC01Instrument(p *Program) *VerifC01Obs {
+	obs := &VerifC01Obs{Counts: map[string]int{}, FrameSwitch: map[string]int{}, Handler: map[string]int{}}
+	seen := map[*Program]bool{}
+	var walk func(p *Program)
+	walk = func(p *Program) {
+		if p == nil || seen[p] {
+			return
+		}
+		seen[p] = true
+		for pc, ins := range p.code {
+			if _, ok := ins.(*verifC01Traced); ok {
+				continue
+			}
+			for _, s := range verifC01Subprograms(ins) {
+				walk(s.prg)
+			}
+			if ins == nil {
+				continue
+			}
+			p.code[pc] = &verifC01Traced{inner: ins, repr: verifC01Instr(ins), obs: obs}
+		}
+	}
+	walk(p)
+	return obs
+}
+
+// VerifC01ObsLines renders the observations, sorted.
+func (o *VerifC01Obs) Lines() []string {
+	out := make([]string, 0, len(o.Counts))
+	for k, n := range o.Counts {
+		out = append(out, k+" "+strconv.Itoa(n))
+	}
+	sort.Strings(out)
+	return out
+}
+
+// VerifC01Classify runs the engine's own panic-payload classifiers on a payload of the given kind and reports
+// what they return:  "exception" (vm.exceptionFromValue != nil), "uncatchable" (asUncatchableException != nil),
+// "compile-error" (what compileAST's recover keeps), or "repanic".
+// Order mirrors the recover sites: RunProgram/runWrapped consult asUncatchableException on what
+// handleThrow re-panicked (i.e. exceptionFromValue returned nil).
+func VerifC01Classify(r *Runtime, kind string) string {
+	var payload interface{}
+	switch kind {
+	case "Object":
+		payload = r.NewObject()
+	case "Value":
+		payload = valueInt(1)
+	case "Exception":
+		payload = &Exception{val: valueInt(1)}
+	case "typeError":
+		payload = typeError("x")
+	case "referenceError":
+		payload = referenceError("x")
+	case "rangeError":
+		payload = rangeError("x")
+	case "syntaxError":
+		payload = syntaxError("x")
+	case "InterruptedError":
+		payload = &InterruptedError{}
+	case "StackOverflowError":
+		payload = &StackOverflowError{}
+	case "wrappedUncatchable":
+		payload = fmt.Errorf("wrapped: %w", &InterruptedError{})
+	case "CompilerSyntaxError":
+		payload = &CompilerSyntaxError{}
+	case "CompilerReferenceError":
+		payload = &CompilerReferenceError{}
+	case "goError":
+		payload = fmt.Errorf("plain")
+	case "runtimeError":
+		func() {
+			defer func() { payload = recover() }()
+			var a []int
+			_ = a[len(kind)]
+		}()
+	case "string":
+		payload = "Compiler bug"
+	case "nilValue":
+		payload = 42
+	default:
+		return "unknown-kind"
+	}
+	if ex := r.vm.exceptionFromValue(payload); ex != nil {
+		return "exception"
+	}
+	if e := asUncatchableException(payload); e != nil {
+		return "uncatchable"
+	}
+	if _, ok := payload.(*CompilerSyntaxError); ok {
+		return "compile-error"
+	}
+	return "repanic"
+}
